@@ -199,6 +199,22 @@ func peersRsp(n int) *message.GetPeersRsp {
 	return rsp
 }
 
+// peersRspMixed: n running peers peer-0..n-1 with `extra` peers in other states in between.
+func peersRspMixed(n, extra int) *message.GetPeersRsp {
+	rsp := &message.GetPeersRsp{}
+	states := []types.PeerState{types.STARTING, types.STOPPING, types.STOPPED, types.DOWN}
+	for i := 0; i < n || extra > 0; i++ {
+		if extra > 0 && (i%2 == 0 || i >= n) {
+			extra--
+			rsp.Peers = append(rsp.Peers, &message.PeerInfo{Addr: &types.PeerAddress{PeerID: []byte(peerID(90 + extra))}, State: states[extra%len(states)]})
+		}
+		if i < n {
+			rsp.Peers = append(rsp.Peers, &message.PeerInfo{Addr: &types.PeerAddress{PeerID: []byte(peerID(i))}, State: types.RUNNING})
+		}
+	}
+	return rsp
+}
+
 func b2i(b bool) int {
 	if b {
 		return 1
